@@ -1,6 +1,6 @@
 ---- MODULE MC_Deployment_wrapfail ----
 EXTENDS Deployment, Json
-\* Instance `wrapfail-3deploy` of Deployment.tla with Fixes = [] (written by harness/vh/props/C26.py:mc_files; the driver generates
+\* Instance `wrapfail-3deploy` of Deployment.tla with Fixes = ['A', 'B', 'C', 'D', 'E', 'F'] (the code as repaired in /repo; Fixes = {} reproduces the defect of the code before the repairs; written by harness/vh/props/C26.py:mc_files; the driver generates
 \* one such module per scenario at run time).  Run: tlc -deadlock -config MC_Deployment_wrapfail.cfg MC_Deployment_wrapfail.tla ; GenNext = per-transition emission.
 MCDeps == {"i", "o"}
 MCWraps == [d \in MCDeps |-> CASE d = "i" -> "-" [] d = "o" -> "i"]
@@ -9,7 +9,7 @@ MCLazy == {}
 MCFails == {"i"}
 MCInstant == {}
 MCChoices == << {<<"deploy", "o">>}, {<<"deploy", "o">>}, {<<"deploy", "o">>} >>
-MCFixes == {}
+MCFixes == {"A", "B", "C", "D", "E", "F"}
 Emit(a) == PrintT(ToJson([f |-> S, a |-> a, t |-> S', v |-> ViolSet(S, S')]))
 GenNext == \/ \E r \in Reqs, k \in {"deploy", "undeploy", "uall", "use"}, d \in Names :
                 Start(r, k, d) /\ Emit(<<"Start", ToString(r), k, d>>)
